@@ -633,7 +633,12 @@ func (b *builder) addFixed() {
 	}
 	// interfaces promoted from well-known std interfaces (several methods each, the shapes real code mocks) and the
 	// same method names/signatures declared directly
-	ioD, sortD, heapD, httpD, syncD, fmtD, flagD, encD := b.std("io"), b.std("sort"), b.std("container/heap"), b.std("net/http"), b.std("sync"), b.std("fmt"), b.std("flag"), b.std("encoding")
+	ioD, sortD, heapD, httpD, fmtD, flagD, encD := b.std("io"), b.std("sort"), b.std("container/heap"), b.std("net/http"), b.std("fmt"), b.std("flag"), b.std("encoding")
+	syncD := ioD // NoSync profile: the source imports no package named sync, FxServe then embeds io.Closer instead of sync.Locker
+	lockerName := "Closer"
+	if !b.prof.NoSync {
+		syncD, lockerName = b.std("sync"), "Locker"
+	}
 	bytesT := slice(basic("byte"))
 	emb := func(name string, embeds []*T, ms ...Method) {
 		t.Ifaces = append(t.Ifaces, &Iface{Name: name, File: file, Exportable: true, Embeds: embeds, Methods: ms, Tags: []string{"fixed"}})
@@ -642,7 +647,7 @@ func (b *builder) addFixed() {
 	emb("FxSort", []*T{pkgT(sortD, "Interface")}, Method{Name: "Name", Results: []Param{{"", str}}})
 	emb("FxHeap", []*T{pkgT(heapD, "Interface")})
 	emb("FxErr", []*T{basic("error"), pkgT(fmtD, "Stringer")}, Method{Name: "Unwrap", Results: []Param{{"", er}}})
-	emb("FxServe", []*T{pkgT(httpD, "Handler"), pkgT(syncD, "Locker")}, Method{Name: "Addr", Results: []Param{{"", str}}})
+	emb("FxServe", []*T{pkgT(httpD, "Handler"), pkgT(syncD, lockerName)}, Method{Name: "Addr", Results: []Param{{"", str}}})
 	emb("FxCodec", []*T{pkgT(flagD, "Value"), pkgT(encD, "BinaryMarshaler"), pkgT(encD, "TextUnmarshaler")})
 	mk("FxDirectIO",
 		Method{Name: "Read", Params: []Param{{"p", bytesT}}, Results: []Param{{"n", in}, {"err", er}}},
@@ -779,6 +784,25 @@ func (b *builder) addFixed() {
 		Method{Name: "Send", Params: []Param{{"path", str}, {"header", hdr}}, Results: []Param{{"", er}}},
 		Method{Name: "Query", Params: []Param{{"q", pkgT(urlD, "Values")}}, Results: []Param{{"", in}, {"", er}}},
 		Method{Name: "Label", Params: []Param{{"id", in}, {"labels", &T{Kind: KMap, Key: str, Elem: slice(str)}}}})
+	// a parameter named like a package only the generated file imports (sync), when no package of the tree has that name
+	{
+		clash := t.SrcName == "sync"
+		for _, d := range t.Std {
+			if d.Path == "sync" {
+				clash = true // imported by the source: the name is then a qualifier of the generated file from the start
+			}
+		}
+		for _, d := range b.allDeps() {
+			if d.Name == "sync" || d.SrcAlias == "sync" {
+				clash = true
+			}
+		}
+		if !clash {
+			mk("FxSyncFlag",
+				Method{Name: "Put", Params: []Param{{"key", str}, {"value", bytesT}, {"sync", bl}}},
+				Method{Name: "Flush", Params: []Param{{"sync", bl}}, Results: []Param{{"", er}}})
+		}
+	}
 	// a method of one interface spelled like the accessor moq generates for a method of another one
 	mk("FxStats",
 		Method{Name: "GetCalls", Results: []Param{{"", in}}},
